@@ -1,4 +1,5 @@
 import KyupyVerif.Proofs.VerilogLib1
+import KyupyVerif.Proofs.CircOuts
 /-! Capstone C11 ∘ C10 ∘ C19, part 2: **hole-set `verilog_parsed_sem` in the vocabulary of C10** — the labellings of the parsed
 circuit (as `NNet`) that are consistent outside the library-cell nodes (`ConsOff … (libHole lib …)`) are exactly the labellings of
 the environments that satisfy every equation of the module except those of the library instances (`VModelOff`). -/
@@ -47,5 +48,32 @@ theorem verilog_consOff_model {α : Type u} (hok : VOK cfg tl ports stmts) (lib 
       rw [List.getD_eq_getElem?_getD, List.getElem?_eq_getElem (List.idxOf_lt_length_iff.mpr hn')]
       simp) v).mp hc
   exact v_labelling_model_off hok (isLibInst lib) _ (fun t ht h => (libHole_iff hok lib hcl t ht).mp h) z neg prim _ v h1
+
+/-! ## the hole-set theorem for an arbitrary set of instances -/
+
+/-- **hole-set `verilog_parsed_sem`**: for any set `HI` of instances ("holes") and the set `S` of their nodes — the labellings of
+the net that satisfy the gate equation of every line NOT driven by a hole correspond one-to-one to the environments that satisfy
+every equation of the module except those of the hole instances -/
+theorem verilog_parsed_sem_holes_main {α : Type u} (hok : VOK cfg tl ports stmts) (HI : VInst → Prop) (S : Nat → Prop)
+    (hS : ∀ n, S n ↔ ∃ i ∈ vInsts stmts, HI i ∧ n = (module cfg tl ports stmts).nodeIdx (.cell i.name 0))
+    (z : α) (neg : α → α) (prim : String → α → α → α → α → α) (a : Nat → α) :
+    (∀ σ, VModelOff HI tl ports stmts z neg prim a σ →
+      NetLabellingOff (verilogNet cfg tl ports stmts) S z neg prim a (vLabel cfg tl stmts z prim σ)) ∧
+    (∀ v, NetLabellingOff (verilogNet cfg tl ports stmts) S z neg prim a v →
+      ∃ σ, VModelOff HI tl ports stmts z neg prim a σ ∧
+        ∀ i, i < (verilogNet cfg tl ports stmts).lines.size → v i = vLabel cfg tl stmts z prim σ i) ∧
+    (∀ σ σ', VModelOff HI tl ports stmts z neg prim a σ → VModelOff HI tl ports stmts z neg prim a σ' →
+      (∀ i, i < (verilogNet cfg tl ports stmts).lines.size → vLabel cfg tl stmts z prim σ i = vLabel cfg tl stmts z prim σ' i) →
+      σ = σ') := by
+  refine ⟨fun σ hm => ?_, fun v hv => ?_, fun σ σ' h1 h2 h => v_model_unique_off hok HI HI z neg prim a a σ σ' h1 h2 h⟩
+  · exact v_model_labelling_off hok HI S (fun i hi h => (hS _).mpr ⟨i, hi, h, rfl⟩) z neg prim a σ hm
+  · apply v_labelling_model_off hok HI S ?_ z neg prim a v hv
+    intro t ht hSt
+    obtain ⟨i, hi, hH, hidx⟩ := (hS _).mp hSt
+    rcases ep_driver_inj _ _ _ (v_resolved_inst hok i hi 0) hidx with ⟨f, h1, _⟩ | ⟨n, p, p', h1, h2⟩
+    · cases h1
+    · simp only [Ep.cell.injEq] at h1
+      obtain ⟨rfl, rfl⟩ := h1
+      exact ⟨i, hi, hH, p', h2⟩
 
 end KV.Netlist
